@@ -49,7 +49,9 @@ func genMsgKey(r *rand.Rand, alg int, withBaseIV bool) msgKey {
 			}
 		}
 	default:
-		parts := []string{"{", "int:1", "int:4", "int:-1", "b:" + hx(randBytes(r, keySizeOf(alg))), "int:3", fmt.Sprintf("%s:%d", []string{"int", "alg", "i64", "u64"}[r.Intn(3)], alg)}
+		symKeySeq++
+		// the key octets held as []byte, key.ByteStr or another named byte-slice type, in turn
+		parts := []string{"{", "int:1", "int:4", "int:-1", []string{"b:", "b:", "bs:", "bx:"}[symKeySeq%4] + hx(randBytes(r, keySizeOf(alg))), "int:3", fmt.Sprintf("%s:%d", []string{"int", "alg", "i64", "u64"}[r.Intn(3)], alg)}
 		if alg < 0 {
 			parts[len(parts)-1] = fmt.Sprintf("int:%d", alg)
 		}
@@ -185,7 +187,7 @@ func payloadTok(r *rand.Rand, mode string, big bool) string {
 	}
 }
 
-var payloadSeq, bigSeq, extSeq, hdrSeq, signSeq, recipSeq int
+var payloadSeq, bigSeq, extSeq, hdrSeq, signSeq, recipSeq, symKeySeq int
 
 func extTok(r *rand.Rand) string {
 	extSeq++
@@ -333,6 +335,21 @@ func genMsg(r *rand.Rand, n int, flavour string) []string {
 		if flavour == "roundtrip" && (i%7 == 3 || i%7 == 5) { // fixed slots, every kind in turn: a kid of the caller's own in the unprotected bucket / the counterpart key held under another kid
 			kind = kindsAll[(i/7)%len(kindsAll)]
 			p = genOneX(r, kind, false, 1+(i%7-3)/2)
+		}
+		if flavour == "tamper-auth" && i%50 == 11 {
+			// a COSE_Sign nobody can verify (unknown kid in the first entry) with thousands of tiny signature entries and a
+			// sizeable payload: refusing it costs in proportion to its size, not payload x entries
+			nSig, pl := []int{4000, 1000, 6000}[(i/50)%3], []int{16384, 65536, 8192}[(i/50)%3]
+			entry := []byte{0x83, 0x40, 0xa1, 0x04, 0x41, 0x01, 0x41, 0x00}
+			msg := append([]byte{0xd8, 0x62, 0x84, 0x40, 0xa0}, bstrItem(randBytes(r, pl))...)
+			msg = append(msg, 0x99, byte(nSig>>8), byte(nSig))
+			for j := 0; j < nSig; j++ {
+				e := append([]byte{}, entry...)
+				e[5] = byte(j) // kids differ
+				msg = append(msg, e...)
+			}
+			k := genMsgKey(r, iana.AlgorithmEdDSA, false)
+			out = append(out, fmt.Sprintf("msg.consume sign raw - %s | %s", hx(msg), k.pub))
 		}
 		if flavour == "tamper-auth" && i%9 == 4 { // COSE_Sign with three signers, the last two of one algorithm
 			p = genOneX(r, "sign", false, 3)
@@ -716,6 +733,103 @@ func reheadPayload(data []byte) ([]byte, bool) {
 	}
 	np := append([]byte{mt<<5 | 24, ai}, pc[1:]...)
 	return replaceSpan(data, spans[2], bstrItem(np)), true
+}
+
+// mapEntries: the (key item, value item) pairs of a definite-length map item
+func mapEntries(item []byte) ([][2][]byte, bool) {
+	if len(item) == 0 || item[0]>>5 != 5 {
+		return nil, false
+	}
+	ai := item[0] & 0x1f
+	hl := 1
+	var n uint64
+	switch {
+	case ai < 24:
+		n = uint64(ai)
+	case ai == 24 && len(item) >= 2:
+		n, hl = uint64(item[1]), 2
+	case ai == 25 && len(item) >= 3:
+		n, hl = uint64(item[1])<<8|uint64(item[2]), 3
+	default:
+		return nil, false
+	}
+	var out [][2][]byte
+	i := hl
+	for j := uint64(0); j < n; j++ {
+		ke := itemEnd(item, i)
+		if ke <= i || ke > len(item) {
+			return nil, false
+		}
+		ve := itemEnd(item, ke)
+		if ve <= ke || ve > len(item) {
+			return nil, false
+		}
+		out = append(out, [2][]byte{item[i:ke], item[ke:ve]})
+		i = ve
+	}
+	return out, i == len(item)
+}
+
+func mapItem(entries [][2][]byte) []byte {
+	out := (&cnode{mt: 5}).emit(nil, nil, nil)[:0]
+	n := len(entries)
+	if n < 24 {
+		out = append(out, 0xa0|byte(n))
+	} else {
+		out = append(out, 0xb8, byte(n))
+	}
+	for _, e := range entries {
+		out = append(append(out, e[0]...), e[1]...)
+	}
+	return out
+}
+
+// unprotTampers: the unprotected bucket of a message with one of its entries (label `label`, a one-octet unsigned key)
+// dropped, emptied (h''), moved to another label, or shadowed by a second entry under the same label placed in front —
+// nothing else touched.  What the entry carried (an IV, a Partial IV, a kid) is then missing, or present twice.
+func unprotTampers(r *rand.Rand, data []byte, label byte) [][]byte {
+	_, spans := topMembers(data)
+	if len(spans) < 3 {
+		return nil
+	}
+	entries, ok := mapEntries(data[spans[1][0]:spans[1][1]])
+	if !ok {
+		return nil
+	}
+	idx := -1
+	for i, e := range entries {
+		if len(e[0]) == 1 && e[0][0] == label {
+			idx = i
+		}
+	}
+	if idx < 0 {
+		return nil
+	}
+	var out [][]byte
+	with := func(es [][2][]byte) { out = append(out, replaceSpan(data, spans[1], mapItem(es))) }
+	clone := func() [][2][]byte { return append([][2][]byte{}, entries...) }
+	dropped := append(clone()[:idx], entries[idx+1:]...)
+	with(dropped)
+	emptied := clone()
+	emptied[idx] = [2][]byte{entries[idx][0], {0x40}}
+	with(emptied)
+	moved := clone()
+	moved[idx] = [2][]byte{{0x04}, entries[idx][1]}
+	if label != 0x04 {
+		hasKid := false
+		for _, e := range entries {
+			if len(e[0]) == 1 && e[0][0] == 0x04 {
+				hasKid = true
+			}
+		}
+		if !hasKid {
+			with(moved)
+		}
+	}
+	// a second entry under the same label in front of the genuine one (duplicate label: the map is not well-formed)
+	shadow := append([][2][]byte{{entries[idx][0], bstrItem(randBytes(r, 1+r.Intn(12)))}}, entries...)
+	with(shadow)
+	return out
 }
 
 // reframe: the members of a message re-framed as its sibling kind, with the same protected / unprotected / payload /
